@@ -29,6 +29,12 @@
    reads err only afterwards;  Load sends its job after Unlock;  Get2 reads the status and
    the predecessor after Unlock.
 
+   The transcription follows the code of /repo after commit 4caabe5 ([CsFixed]): Get2 and
+   Load decide the status of the entry AND the future to hand out (fetchIfFutureStatusGood:
+   predecessor, status of the predecessor) before Unlock; the thread then parks at AfterUnlock
+   with its target ([CsXAU]).  [CsOrig] is the order of the code before that commit (Get2:
+   Unlock right after the map read; Load: predecessor read after Unlock).
+
    Schedule = list of items: [CsRun i] = thread i executes one step, [CsTick dt] = the clock
    advances by dt >= 0 (between any two steps).
 
@@ -50,6 +56,12 @@
    Definitions only; proofs are in proofs/CacheStepsProofs.v. *)
 From Got Require Import Base Cache.
 Local Open Scope Z_scope.
+
+(* Orig = the code before commit 4caabe5 (Get2 evaluated the entry's status and the
+   predecessor, and Load evaluated the predecessor, AFTER Unlock); Fixed = the code now in
+   /repo (both decisions are taken while the shard mutex is held).  The Orig order is kept
+   for the refutation theorems only. *)
+Inductive cs_mode := CsOrig | CsFixed.
 
 Inductive cs_op :=
 | CsLoad (k : Z)
@@ -78,6 +90,7 @@ Inductive cs_pc :=
 | CsRLP (w : bool) (f : nat)
 | CsRPU (w : bool) (f p : nat)
 | CsRPE (w : bool) (f p : nat) (past : Z)
+| CsXAU (w : bool) (x : nat)        (* Fixed: after Unlock with the decided target x *)
 (* Set *)
 | CsSBL (k v e : Z)
 | CsSAL (k v e : Z)
@@ -101,7 +114,7 @@ Definition cs_site (pc : cs_pc) : Z :=
   | CsIdle => 0
   | CsLBL _ | CsGBL _ | CsSBL _ _ _ | CsZBL => 1
   | CsLAL _ | CsGAL _ | CsSAL _ _ _ | CsZAL => 2
-  | CsLAU _ _ _ | CsGAU _ | CsSAU | CsZAU => 3
+  | CsLAU _ _ _ | CsGAU _ | CsSAU | CsZAU | CsXAU _ _ => 3
   | CsLLU _ _ | CsGLU _ | CsRPU _ _ _ | CsZLU _ _ _ => 4
   | CsLRE _ _ _ | CsGRE _ _ | CsRPE _ _ _ _ | CsZRE _ _ _ _ => 5
   | CsRLP _ _ => 6
@@ -225,12 +238,13 @@ Definition cs_cand (cfg : c_cfg) (g : c_state) (op : cs_op) : option c_out :=
   end.
 
 (* windows: the clock was read and the value is published / used by a later step *)
-Definition cs_in_window (pc : cs_pc) : bool :=
+Definition cs_in_window (md : cs_mode) (pc : cs_pc) : bool :=
   match pc with
   | CsWSU _ _ _ _ | CsWSP _ _ _ _ => true     (* setValue: Now() read .. predecessor cleared *)
   | CsSSU _ _ _ _ | CsSSP _ _ _ _ => true     (* Set: the same, until the map write *)
-  | CsGAU _ | CsGLU _ => true                 (* Get2: map read .. time.Since of the entry *)
-  | CsLRE _ _ _ => true                       (* Load: time.Since .. decision under the lock *)
+  | CsGAU _ | CsGLU _ =>                      (* Orig Get2: map read .. time.Since of the entry *)
+      match md with CsOrig => true | CsFixed => false end
+  | CsLRE _ _ _ => true                       (* Load: time.Since .. decision in the same critical section *)
   | CsZRE _ _ _ _ => true
   | _ => false
   end.
@@ -275,11 +289,19 @@ Definition cs_return (m : c_state) (lk : option nat) (g : c_state) (lin : option
      tr_lin := lin; tr_ret := Some (r, o); tr_chk := None |}.
 
 (* end of fetchIfFutureStatusGood: Load returns x, Get2 goes on to x.Get2() *)
-Definition cs_fetched (m : c_state) (lk : option nat) (g : c_state) (lin : option c_out) (w : bool) (x : nat) : cs_tres :=
+Definition cs_fetched_now (m : c_state) (lk : option nat) (g : c_state) (lin : option c_out) (w : bool) (x : nat) : cs_tres :=
   if w then
     {| tr_m := m; tr_lock := lk; tr_g := g; tr_emit := []; tr_pc := CsGFW x;
        tr_ev := CsEvYield 10 (Some x); tr_lin := lin; tr_ret := Some (CsRVal 0 0, OAwait x); tr_chk := None |}
   else cs_return m lk g lin (CsRFut x false) (OLoad x false).
+
+(* Orig: the decision is taken after Unlock, the call goes on at once.  Fixed: the decision is
+   taken under the lock: Unlock, park at AfterUnlock with the target *)
+Definition cs_fetched (md : cs_mode) (m : c_state) (lk : option nat) (g : c_state) (lin : option c_out) (w : bool) (x : nat) : cs_tres :=
+  match md with
+  | CsOrig => cs_fetched_now m lk g lin w x
+  | CsFixed => cs_park m None g lin (CsXAU w x)
+  end.
 
 (* ghost: the atomic Load k happens now; its output is remembered in ct_lin *)
 Definition cs_lin_load (cfg : c_cfg) (g : c_state) (k : Z) : c_state * c_out := c_load cfg g k.
@@ -292,7 +314,7 @@ Definition cs_sweep_next (cfg : c_cfg) (m : c_state) (lk : option nat) (g : c_st
   | (k, f) :: r => cs_park m lk g None (CsZLU k f r)
   end.
 
-Definition cs_tstep (cfg : c_cfg) (s : cs_state) (tid : nat) (t : cs_thread) : cs_tres :=
+Definition cs_tstep (md : cs_mode) (cfg : c_cfg) (s : cs_state) (tid : nat) (t : cs_thread) : cs_tres :=
   let m := cs_m s in let g := cs_g s in let lk := cs_lock s in let lin := ct_lin t in
   let me := Some tid in
   match ct_pc t with
@@ -310,12 +332,20 @@ Definition cs_tstep (cfg : c_cfg) (s : cs_state) (tid : nat) (t : cs_thread) : c
       end
   | CsLLU k f =>
       match cs_fdone m f with
-      | None => cs_park m None g lin (CsLAU CGood (Some f) None)     (* updateTime zero: Good; Unlock *)
+      | None =>                                    (* updateTime zero: Good *)
+          match md with
+          | CsOrig => cs_park m None g lin (CsLAU CGood (Some f) None)   (* Unlock; the predecessor is read later *)
+          | CsFixed => cs_park m lk g lin (CsRLP false f)                (* fetchIfFutureStatusGood under the lock *)
+          end
       | Some (_, _, u) => cs_park m lk g lin (CsLRE k f (c_now m - u))  (* time.Since *)
       end
   | CsLRE k f past =>
       match cs_status_of cfg past (cs_err_of m f) with
-      | CGood => cs_park m None g lin (CsLAU CGood (Some f) None)
+      | CGood =>
+          match md with
+          | CsOrig => cs_park m None g lin (CsLAU CGood (Some f) None)
+          | CsFixed => cs_park m lk g lin (CsRLP false f)
+          end
       | st =>
           let pred := match st with CExpired => Some f | _ => None end in
           let '(g', o) := cs_lin_load cfg g k in
@@ -336,7 +366,15 @@ Definition cs_tstep (cfg : c_cfg) (s : cs_state) (tid : nat) (t : cs_thread) : c
       cs_return (cs_enqueue m n) lk g lin (CsRFut r true) (OLoad r true)
   (* ---------------- Get2 *)
   | CsGBL k => cs_park m me g lin (CsGAL k)
-  | CsGAL k => cs_park m None g lin (CsGAU (c_lookup (c_map m) k))   (* map read; Unlock *)
+  | CsGAL k =>
+      match md with
+      | CsOrig => cs_park m None g lin (CsGAU (c_lookup (c_map m) k))   (* map read; Unlock *)
+      | CsFixed =>
+          match c_lookup (c_map m) k with
+          | None => cs_park m None g lin (CsGAU None)                   (* status Empty; Unlock *)
+          | Some f => cs_park m lk g lin (CsGLU f)                      (* getFutureStatus under the lock *)
+          end
+      end
   | CsGAU fo =>
       match fo with
       | None => cs_return m lk g lin (CsRVal 0 0) OImmediate
@@ -350,8 +388,11 @@ Definition cs_tstep (cfg : c_cfg) (s : cs_state) (tid : nat) (t : cs_thread) : c
   | CsGRE f past =>
       match cs_status_of cfg past (cs_err_of m f) with
       | CGood => cs_park m lk g lin (CsRLP true f)
-      | CExpired => cs_fetched m lk g lin true f
-      | _ => cs_return m lk g lin (CsRVal 0 0) OImmediate
+      | CExpired => cs_fetched md m lk g lin true f
+      | _ => match md with
+             | CsOrig => cs_return m lk g lin (CsRVal 0 0) OImmediate
+             | CsFixed => cs_park m None g lin (CsGAU None)             (* Unlock; return (nil, nil) *)
+             end
       end
   | CsGFW x =>
       match cs_fdone m x with
@@ -363,19 +404,20 @@ Definition cs_tstep (cfg : c_cfg) (s : cs_state) (tid : nat) (t : cs_thread) : c
   (* ---------------- fetchIfFutureStatusGood *)
   | CsRLP w f =>
       match cs_fpred m f with
-      | None => cs_fetched m lk g lin w f
+      | None => cs_fetched md m lk g lin w f
       | Some p => cs_park m lk g lin (CsRPU w f p)
       end
   | CsRPU w f p =>
       match cs_fdone m p with
-      | None => cs_fetched m lk g lin w f
+      | None => cs_fetched md m lk g lin w f
       | Some (_, _, u) => cs_park m lk g lin (CsRPE w f p (c_now m - u))
       end
   | CsRPE w f p past =>
       match cs_status_of cfg past (cs_err_of m p) with
-      | CExpired => cs_fetched m lk g lin w p
-      | _ => cs_fetched m lk g lin w f
+      | CExpired => cs_fetched md m lk g lin w p
+      | _ => cs_fetched md m lk g lin w f
       end
+  | CsXAU w x => cs_fetched_now m lk g lin w x
   (* ---------------- Set *)
   | CsSBL k v e => cs_park m me g lin (CsSAL k v e)
   | CsSAL k v e => cs_park m lk g lin (CsSSU k v e (c_now m))
@@ -472,7 +514,7 @@ Definition cs_go (cfg : c_cfg) (s : cs_state) (tid : nat) (t : cs_thread) (op : 
       cs_log := match tr_ret r with Some (res, o) => (tid, op, res, o) :: cs_log s | None => cs_log s end |},
    tr_ev r).
 
-Definition cs_step (cfg : c_cfg) (s : cs_state) (it : cs_item) : cs_state * cs_ev :=
+Definition cs_step (md : cs_mode) (cfg : c_cfg) (s : cs_state) (it : cs_item) : cs_state * cs_ev :=
   match it with
   | CsTick dt =>
       if dt <? 0 then (s, CsEvBlocked)
@@ -481,7 +523,7 @@ Definition cs_step (cfg : c_cfg) (s : cs_state) (it : cs_item) : cs_state * cs_e
         ({| cs_m := cs_tick (cs_m s) dt; cs_lock := cs_lock s;
             cs_thr := map (cs_note cfg g') (cs_thr s);
             cs_g := g'; cs_evs := CAdvance dt :: cs_evs s;
-            cs_bad := cs_bad s || ((0 <? dt) && existsb (fun t => cs_in_window (ct_pc t)) (cs_thr s));
+            cs_bad := cs_bad s || ((0 <? dt) && existsb (fun t => cs_in_window md (ct_pc t)) (cs_thr s));
             cs_mis := cs_mis s; cs_log := cs_log s |}, CsEvTick)
   | CsRun tid =>
       match nth_error (cs_thr s) tid with
@@ -490,7 +532,7 @@ Definition cs_step (cfg : c_cfg) (s : cs_state) (it : cs_item) : cs_state * cs_e
           if cs_blocked s t then (s, CsEvBlocked)
           else
             match ct_op t with
-            | Some op => cs_go cfg s tid t op (ct_prog t) (cs_tstep cfg s tid t)
+            | Some op => cs_go cfg s tid t op (ct_prog t) (cs_tstep md cfg s tid t)
             | None =>
                 match ct_prog t with
                 | [] => (s, CsEvDone)
@@ -500,10 +542,10 @@ Definition cs_step (cfg : c_cfg) (s : cs_state) (it : cs_item) : cs_state * cs_e
       end
   end.
 
-Fixpoint cs_run (cfg : c_cfg) (s : cs_state) (sched : list cs_item) : cs_state :=
+Fixpoint cs_run (md : cs_mode) (cfg : c_cfg) (s : cs_state) (sched : list cs_item) : cs_state :=
   match sched with
   | [] => s
-  | it :: r => cs_run cfg (fst (cs_step cfg s it)) r
+  | it :: r => cs_run md cfg (fst (cs_step md cfg s it)) r
   end.
 
 Definition cs_thread_init (p : list cs_op) : cs_thread :=
